@@ -240,7 +240,7 @@ func cmdCheck(args []string) {
 	}
 	work := filepath.Join(*verif, ".work", *prop+"-"+*tier)
 	os.RemoveAll(work)
-	vc.Discharge(obls, vc.SolveOpts{Timeout: timeout, Workers: 14, TmpDir: work})
+	vc.Discharge(obls, vc.SolveOpts{Timeout: timeout, Workers: 14, TmpDir: work, FailFast: 12})
 	// second chance: an obligation the portfolio did not decide (timeout / unknown, no counterexample) is tried
 	// again with a much longer timeout and few workers before it is reported; a loaded machine must not turn a
 	// slow proof into an alarm. Obligations with a counterexample (sat) are not retried.
@@ -259,7 +259,13 @@ func cmdCheck(args []string) {
 				}
 			}
 		}
-		if len(again) > 0 && len(again) <= 8 {
+		hasCex := false
+		for _, o := range obls {
+			if o.Status != "discharged" && o.Expect != "sat" && o.Result == "sat" {
+				hasCex = true // a counterexample settles the verdict: no point in waiting for the undecided ones
+			}
+		}
+		if len(again) > 0 && len(again) <= 8 && !hasCex {
 			for _, o := range again {
 				o.Retried = true
 			}
